@@ -30,7 +30,7 @@ func runC16(c *Ctx) {
 	r := c.R
 	r.Rule("R16-exit-halts", "every way out of the command loop halts the search and clears the active flag before the output channel is closed", 10)
 	r.Rule("R16-close-owner", "the output channel is sent to only by the goroutine that closes it or by goroutines it has joined before closing", 1)
-	r.Rule("R16-stale", "a goroutine that can complete a search is tied to that search: joined before the next search is armed, or guarded by a per-search token; info lines are printed only for the search they belong to", 2)
+	r.Rule("R16-stale", "a goroutine that can complete a search is tied to that search: joined before the next search is armed, or guarded by a per-search token; info lines are printed only for the search they belong to; the cleared flag cannot be won", 3)
 	r.Rule("R16-ready", "isready is always answered; no command other than quit (or end of input / close) terminates the command loop", 10)
 	r.Rule("R16-locks", "engine state is accessed only with the engine mutex held; driver state that is not atomic is touched only by the command-loop goroutine; goroutines started by the driver capture only the driver, the context, the result channel and the infinite flag", 4)
 	r.Rule("R16-noblock", "no mutex is held across a blocking channel receive whose producer needs the same mutex (the halt/publish hand-shake cannot deadlock)", 1)
@@ -174,14 +174,30 @@ func c16Channels(c *Ctx, d *driverModel) {
 	// a per-search token: the value the compare-and-swap expects is handed in by the caller (the id of the
 	// search that completed), not a constant shared by all searches
 	tokenised, casOnBool := false, false
+	zeroWin := ""
 	for _, b := range d.searchCompleted.Blocks {
 		for _, ins := range b.Instrs {
 			if d.flagOp(ins) != "win" {
 				continue
 			}
 			old := stripConv(ins.(ssa.CallInstruction).Common().Args[1])
-			if _, isParam := old.(*ssa.Parameter); isParam {
+			if prm, isParam := old.(*ssa.Parameter); isParam {
 				tokenised = true
+				// the cleared value is not a search: the completion must not be able to "win" it
+				lo, hi := boundsFromGuards(edgeGuards(ins.Block()), prm)
+				nonZero := (lo != nil && *lo > 0) || (hi != nil && *hi < 0)
+				if !nonZero {
+					for _, g := range edgeGuards(ins.Block()) {
+						if bo, ok := g.cond.(*ssa.BinOp); ok && (bo.Op == token.NEQ && g.pol || bo.Op == token.EQL && !g.pol) {
+							if (stripConv(bo.X) == ssa.Value(prm) && isZeroSSA(bo.Y)) || (stripConv(bo.Y) == ssa.Value(prm) && isZeroSSA(bo.X)) {
+								nonZero = true
+							}
+						}
+					}
+				}
+				if !nonZero {
+					zeroWin = c.pos(ins.Pos())
+				}
 			} else {
 				casOnBool = true // a constant, or whatever the flag holds right now: shared by all searches
 			}
@@ -222,6 +238,7 @@ func c16Channels(c *Ctx, d *driverModel) {
 		}
 	}
 	r.Check(joined || untagged == "", "R16-stale", "info lines are printed only for the search they belong to", c.pos(d.process.Pos()), "", "the command loop prints intermediate information whenever the flag is set ("+untagged+"), whichever search produced it: after 'go', 'go' the lines of the superseded search appear as the new search's")
+	r.Check(zeroWin == "", "R16-stale", "the completion cannot win the cleared flag", c.pos(d.searchCompleted.Pos()), "", "the compare-and-swap at "+zeroWin+" accepts the cleared value as the expected id: a 'stop' that arrives after a search has ended by itself (flag clear, engine handle still registered) wins 0 -> 0 and answers a second time for the finished search")
 	r.Check(joined || tokenised || !casOnBool, "R16-stale", "search completion is guarded by one shared boolean", c.pos(d.searchCompleted.Pos()), "", "searchCompleted decides with CompareAndSwap(true,false) on a single atomic.Bool shared by all searches, and the forwarding goroutine of a superseded search is not joined (Engine.Halt returns before it has drained): after 'go', 'go' the forwarder of the first search can win the flag armed for the second and emit a stale bestmove")
 }
 
@@ -587,6 +604,40 @@ func c16Supersede(c *Ctx, d *driverModel) {
 			}
 		}
 	}
+	// driver helpers that halt the engine and complete the halted search themselves (the stop idiom moved
+	// into a method): a call of such a helper counts as a halting call that completes
+	completesItself := func(call *ssa.Call) bool {
+		for _, ref := range *call.Referrers() {
+			if ex, ok := ref.(*ssa.Extract); ok && ex.Index == 0 {
+				for _, r2 := range *ex.Referrers() {
+					if c2, ok := r2.(ssa.CallInstruction); ok && c2.Common().StaticCallee() == d.searchCompleted {
+						return true
+					}
+				}
+			}
+		}
+		return false
+	}
+	haltHelpers := map[*ssa.Function]bool{}
+	for _, fn := range c.P.AllFuncs {
+		if fn.Pkg != d.process.Pkg || fn.Blocks == nil || fn == d.process || fn == d.ensureInactive || fn == d.searchCompleted || fn.Parent() != nil {
+			continue
+		}
+		all, any := true, false
+		for _, b := range fn.Blocks {
+			for _, ins := range b.Instrs {
+				if call, ok := ins.(*ssa.Call); ok && halting[call.Call.StaticCallee()] {
+					any = true
+					if !(call.Call.StaticCallee() == d.engHalt && completesItself(call)) {
+						all = false
+					}
+				}
+			}
+		}
+		if any && all {
+			haltHelpers[fn] = true
+		}
+	}
 	n := 0
 	for _, b := range d.process.Blocks {
 		if !(d.loopHead == b || d.loopHead.Dominates(b)) {
@@ -594,6 +645,11 @@ func c16Supersede(c *Ctx, d *driverModel) {
 		}
 		for _, ins := range b.Instrs {
 			call, ok := ins.(*ssa.Call)
+			if ok && haltHelpers[call.Call.StaticCallee()] {
+				n++
+				r.Pass("R16-supersede", fmt.Sprintf("%s arm: call of Engine.%s", d.armOf(b), d.engHalt.Name()), c.pos(call.Pos()), "", "the helper "+c.P.FuncName(call.Call.StaticCallee())+" completes the halted search itself")
+				continue
+			}
 			if !ok || !halting[call.Call.StaticCallee()] {
 				continue
 			}
